@@ -276,6 +276,24 @@ def coq_check_props(pid):
     }
 
 
+def coqchk_props(pid):
+    """Thorough tier: re-check the compiled closure of Props/<pid>.vo with Coq's independent
+    checker and report the axioms / unsafe features it finds (coqchk -o)."""
+    t = time.time()
+    cmd = ["coqchk", "-o", "-silent", "-Q", COQ, "L4", "L4.Props." + pid]
+    rc, out = sh(cmd, timeout=3000)
+    if rc != 0:
+        raise Broken("coqchk:Props/%s.vo" % pid, out[-3000:])
+    summary = out[out.find("CONTEXT SUMMARY"):] if "CONTEXT SUMMARY" in out else out[-1500:]
+    fields = {}
+    for m in re.finditer(r"\* ([^:\n]+):\s*(.*?)(?=\n\s*\n|\Z)", summary, re.S):
+        fields[m.group(1).strip()] = " ".join(m.group(2).split())
+    bad = [k for k, v in fields.items() if k != "Theory" and v != "<none>"]
+    if bad:
+        raise Broken("coqchk:Props/%s.vo" % pid, "coqchk reports: " + json.dumps(fields))
+    return {"coqchk_cmd": " ".join(cmd), "coqchk_summary": fields, "coqchk_wall_s": round(time.time() - t, 1)}
+
+
 # --------------------------------------------------------------------------
 # extraction + OCaml driver
 
